@@ -47,7 +47,9 @@ Op(t, St, e) ==
          [] e.op = "has_key" -> J(Has(St, k, e.now))
          [] e.op = "incr" -> LET r == Incr(St, k, e.a.d, <<>>, e.now) IN
                              [S |-> r.S, ret |-> IF r.ret.k = "KeyError" THEN RExc("ValueError") ELSE r.ret, judged |-> TRUE]
-         [] e.op = "pop" -> LET r == Pop(St, k, FF, e.now) IN [S |-> r.S, ret |-> Val(r), judged |-> TRUE]
+         [] e.op = "pop" -> LET fl == <<"fx" \in DOMAIN e.a /\ e.a.fx = 1, "ft" \in DOMAIN e.a /\ e.a.ft = 1>>
+                                r == Pop(St, k, fl, e.now)
+                            IN [S |-> r.S, ret |-> IF r.ret.k = "val" THEN R("val", r.ret.v) ELSE R("none", <<>>), judged |-> TRUE]
          [] e.op = "get_many" -> [S |-> St, ret |-> R("pairs", GetMany(t, St, e.a.ks, e.a.ver, e)), judged |-> TRUE]
          [] e.op = "set_many" -> [S |-> SetMany(t, St, e.a.pairs, e.a.ver, e), ret |-> R("list", <<>>), judged |-> TRUE]
          [] e.op = "delete_many" -> [S |-> DelMany(t, St, e.a.ks, e.a.ver), ret |-> RNone, judged |-> FALSE]
